@@ -298,7 +298,13 @@ func run(c *mon.Ctx) {
 		}
 		// (what is kept is the last slice this object hands out: an object may re-use its own buffer when it is encoded again)
 		lastSec := sec
-		defer func() { emitted = append(emitted, [2][]byte{lastSec, append([]byte{}, lastSec...)}) }()
+		// (only what section_length can describe: of a slice longer than 3+4095 bytes - stuffing beyond any section -
+		// nothing is demanded once setters were called on the message after it was encoded)
+		defer func() {
+			if len(lastSec) <= 3+4095 {
+				emitted = append(emitted, [2][]byte{lastSec, append([]byte{}, lastSec...)})
+			}
+		}()
 		c.Class(fmt.Sprintf("emitted-scte35/cmd=%d/descs=%d/stuffing=%v/over1023=%v", s.Command(), len(ds), stuff > 0, len(sec) > 1026))
 		// encode again after a change made through a command / descriptor handle that keeps every length
 		first := append([]byte{}, sec...)
@@ -342,6 +348,11 @@ func run(c *mon.Ctx) {
 			}
 			c.Count("emitted_scte35.setters_after_encoding")
 			for name, b := range map[string][]byte{"Data()": s.Data(), "the slice UpdateData() returned": lastSec} {
+				if len(b) > 3+4095 {
+					// not a section any more (section_length cannot describe it): what in-place maintenance makes of it
+					// is not constrained
+					continue
+				}
 				if len(b) < 4 || ref.CRC32MPEG2(b) != 0 {
 					c.Fail("crc:emitted-scte35-after-later-setters", "after SetAdjustPTS / SetTier on an already encoded message, "+name+" holds a section whose CRC-32/MPEG-2 is not zero", wit{Input: mon.Hex(b)})
 					break
